@@ -16,6 +16,9 @@ impl Args {
     }
     pub fn f(&mut self) -> f64 {
         let t = self.tag();
+        if t == "xNaN" {
+            return f64::NAN;
+        }
         assert!(t.starts_with('x'), "wire: bad float {t}");
         f64::from_bits(u64::from_str_radix(&t[1..], 16).expect("wire: hex"))
     }
